@@ -114,7 +114,7 @@ prov_create_c = Contract('pywbem_mock/_instancewriteprovider.py::InstanceWritePr
                                     'fresh(new_instance) and new_instance is not caller_NewInstance'),
                                    ('same-namespace', 'namespace == caller_namespace')],
                          notes='the (default or registered) provider; its own behaviour is C11/bounded')
-CLASS_SPECS['CIMClass'] = {'qualifiers': Ref('NocaseDict'), 'properties': Ref('NocaseDict')}
+CLASS_SPECS['CIMClass'] = {'qualifiers': Ref('NocaseDict'), 'properties': Ref('NocaseDict'), 'classname': Str}
 CLASS_SPECS['CIMInstance']['properties'] = Ref('NocaseDict')
 CLASS_SPECS['CIMProperty'] = {'name': Str}
 CLASS_SPECS['NocaseDict'] = {'__iter__': 'str', '__value__': ('ref', 'CIMProperty')}
